@@ -306,7 +306,7 @@ def oracle_case(ctx, name, n, part, v, r, key=None, svd=None, band=BAND):
         problems.append(f"rank {rank} not a power of two")
     if len(s) != rank or u.shape != (rows, rank) or vh.shape != (rank, cols):
         problems.append(f"shapes U{u.shape} s{s.shape} V{vh.shape} for rank {rank}, matrix {rows}x{cols}")
-    else:
+    elif rank >= 1:
         gu = np.abs(u.conj().T @ u - np.eye(rank)).max()
         gv = np.abs(vh @ vh.conj().T - np.eye(rank)).max()
         if gu > 1e-7:
